@@ -1,5 +1,6 @@
 #!/bin/bash
-# usage: mkfacts.sh <repo> <outdir> [cargo feature args...]
+# usage: mkfacts.sh <repo> <outdir> [cargo args...]   (cargo args default to "-p cel-interpreter")
+# env VERIF_FACT_CRATES overrides the crates to dump
 # Runs the fact-extraction driver over cel-parser + cel-interpreter in a fresh
 # target directory (a warm one would make cargo skip the wrapper) and removes it.
 set -u
@@ -13,8 +14,8 @@ cd "$REPO" || exit 2
 LD_LIBRARY_PATH=$(rustc +nightly --print sysroot)/lib \
 RUSTFLAGS="-Zmir-opt-level=0 -Coverflow-checks=on -Cdebug-assertions=off -Awarnings" \
 RUSTC_WORKSPACE_WRAPPER=$DRV CARGO_NET_OFFLINE=true \
-VERIF_FACT_CRATES=cel_parser,cel_interpreter VERIF_FACT_DIR="$OUT" CARGO_TARGET_DIR="$T" \
-cargo +nightly check --offline -p cel-interpreter "$@" > "$OUT/cargo.log" 2>&1
+VERIF_FACT_CRATES=${VERIF_FACT_CRATES:-cel_parser,cel_interpreter} VERIF_FACT_DIR="$OUT" CARGO_TARGET_DIR="$T" \
+cargo +nightly check --offline ${VERIF_PKG--p cel-interpreter} "$@" > "$OUT/cargo.log" 2>&1
 rc=$?
 if [ $rc -ne 0 ]; then tail -30 "$OUT/cargo.log" >&2; fi
 exit $rc
